@@ -66,6 +66,23 @@ func c02Shapes() []hunkShape2 {
 			}
 		}
 	}
+	// hand-written hunks with several context lines on a side (the boundary marker first / last)
+	wideB := [][]V{{ref.Void{}, "ctx"}, {"c1", "ctx"}, {ref.Void{}, "c1", "ctx"}}
+	wideA := [][]V{{"ctx", ref.Void{}}, {"ctx", "c2"}, {"ctx", "c2", ref.Void{}}}
+	for _, p := range indexPaths {
+		for _, b := range append(append([][]V{}, ctxChoices()...), wideB...) {
+			for _, a := range append(append([][]V{}, ctxChoices()...), wideA...) {
+				if len(b) <= 1 && len(a) <= 1 {
+					continue
+				}
+				for _, ra := range [][2]int{{1, 0}, {0, 1}, {1, 1}, {2, 2}} {
+					all := append(append([]V{}, c02Payload[0]...), c02Payload[0]...)
+					h := ref.Hunk{Path: p, Before: b, After: a, Remove: take(all, 0, ra[0]), Add: take(all, ra[0], ra[1])}
+					out = append(out, hunkShape2{H: h, Class: "index-wide"})
+				}
+			}
+		}
+	}
 	keyPaths := [][]ref.PE{{ref.K("a")}, {ref.I(0), ref.K("a")}, {ref.K("a/b")}, {ref.K("")}, {ref.K("m~n"), ref.K("é\n\"")}, {}}
 	for pi, p := range keyPaths {
 		for _, ra := range [][2]int{{1, 0}, {0, 1}, {1, 1}} {
